@@ -5,23 +5,14 @@
 (* and sizes for the logged input.                                                       *)
 EXTENDS TxEnvelope, Json, IOUtils, TLC
 
-CONSTANT KnownFindings        \* TRUE: tolerate (and count) the TODO-KNOWN-FINDING deviations
-
 Trace == ndJsonDeserialize(IOEnv.TRACE)
-VARIABLES l, known            \* known = number of events explained only by a known finding
+VARIABLE l
 Ev == Trace[l]
 
 Step(A) == l <= Len(Trace) /\ A /\ l' = l + 1
 
-(* sizes: the envelope lengths, or (pending) the values of the known finding *)
-SizesExact(tx, size, noscsz) == size = Size(tx) /\ noscsz = Size(WithoutSidecar(tx))
-SizesKnown(tx, size, noscsz, fresh) ==
-  /\ KnownFindings /\ KnownSidecarSize(tx)
-  /\ size = (IF fresh THEN ApproxSize(tx) ELSE Size(tx))
-  /\ noscsz = (IF fresh THEN Size(WithoutSidecar(tx)) ELSE ApproxNoScSize(tx))
-Sizes(tx, size, noscsz, fresh) ==
-  \/ SizesExact(tx, size, noscsz) /\ known' = known
-  \/ ~SizesExact(tx, size, noscsz) /\ SizesKnown(tx, size, noscsz, fresh) /\ known' = known + 1
+(* sizes are the lengths of the envelopes, with and without the sidecar *)
+Sizes(tx, size, noscsz) == size = Size(tx) /\ noscsz = Size(WithoutSidecar(tx))
 
 Common(tx) == /\ Ev.bin = Marshal(tx) /\ Ev.net = EncodeNetwork(tx)
               /\ Ev.pre = HashPreimage(tx) /\ Ev.hashok
@@ -30,11 +21,11 @@ Common(tx) == /\ Ev.bin = Marshal(tx) /\ Ev.net = EncodeNetwork(tx)
 TMarshal == Step(Ev.op = "marshal" /\ LET tx == Tx(Ev.typ, Ev.v, Ev.sc) IN
                  /\ WFTx(tx) /\ Common(tx) /\ Ev.json = "ok"
                  /\ DecodeBinary(Ev.bin).ok /\ DecodeBinary(Ev.bin).tx = tx
-                 /\ Sizes(tx, Ev.size, Ev.noscsz, TRUE))
+                 /\ Sizes(tx, Ev.size, Ev.noscsz))
 
-Verdict(r) == r.ok = Ev.ok /\ (~r.ok => Ev.cls \in r.c /\ known' = known)
+Verdict(r) == r.ok = Ev.ok /\ (~r.ok => Ev.cls \in r.c)
 Decoded(r) == r.ok => /\ r.tx = Tx(Ev.typ, Ev.v, Ev.sc) /\ Common(r.tx) /\ Ev.json \in {"ok", "skip"}
-                      /\ Sizes(r.tx, Ev.size, Ev.noscsz, FALSE)
+                      /\ Sizes(r.tx, Ev.size, Ev.noscsz)
 
 TUnmarshal == Step(Ev.op = "unmarshal" /\ LET r == DecodeBinary(Ev.in) IN
                  Verdict(r) /\ Decoded(r) /\ (r.ok => Ev.bin = Ev.in))
@@ -43,17 +34,16 @@ TDecodeRLP == Step(Ev.op = "decoderlp" /\ LET r == DecodeNetwork(Ev.in) IN
 
 (* a list of transactions decoded at once: verdict, the envelope of every element, their  *)
 (* sizes and hashes, and the canonical re-encoding of the whole list                       *)
-TTxList == Step(Ev.op = "txlist" /\ known' = known /\ LET r == DecodeTxList(Ev.in) IN
+TTxList == Step(Ev.op = "txlist" /\ LET r == DecodeTxList(Ev.in) IN
                  /\ r.ok = Ev.ok /\ (~r.ok => Ev.cls \in r.c)
                  /\ (r.ok => /\ Len(r.txs) = Len(Ev.bins)
                              /\ \A i \in 1..Len(r.txs) : /\ Ev.bins[i] = Marshal(r.txs[i])
                                                          /\ Ev.sizes[i] = Size(r.txs[i])
                              /\ Ev.hashok /\ Ev.reenc = Ev.in /\ EncodeTxList(r.txs) = Ev.in))
 
-TraceInit == l = 1 /\ known = 0
+TraceInit == l = 1
 TraceNext == TMarshal \/ TUnmarshal \/ TDecodeRLP \/ TTxList
-TraceSpec == TraceInit /\ [][TraceNext]_<<l, known>>
+TraceSpec == TraceInit /\ [][TraceNext]_l
 
-TraceAccepted == /\ TLCGet("stats").diameter - 1 = Len(Trace)
-KnownReport == (l = Len(Trace) + 1) => PrintT(<<"KNOWN", ToJson(known)>>)
+TraceAccepted == TLCGet("stats").diameter - 1 = Len(Trace)
 =============================================================================
